@@ -387,18 +387,10 @@ def minimize_lbfgsb(
         f0 = checkpoint.fun
 
     # potential update of stop criterion
-    if ftarget is not None:
-        try:
-            _ftarget: Optional[float] = ftarget()  # type: ignore
-        except TypeError:
-            _ftarget = ftarget  # type: ignore
-    else:
-        _ftarget = None
-
-    try:
-        _gtol: float = gtol()  # type: ignore
-    except TypeError:
-        _gtol = gtol  # type: ignore
+    _ftarget: Optional[float] = (
+        ftarget() if callable(ftarget) else ftarget  # type: ignore
+    )
+    _gtol: float = gtol() if callable(gtol) else gtol  # type: ignore
 
     # Create an internal state instance
     istate = InternalState()
